@@ -22,6 +22,7 @@ CHECKS = {
     "C04-seed1": ["C04"], "C04-seed2": ["C04"],
     "C06-seed1": ["C06", "C02"], "C06-seed2": ["C06"],
     "C07-seed1": ["C07"], "C07-seed2": ["C07"],
+    "C08-seed1": ["C08", "C17"], "C08-seed2": ["C08", "C09"],
     "C09-seed1": ["C09"], "C09-seed2": ["C09"],
     "C10-regress-median": ["C10"], "C10-seed1": ["C10"], "C10-seed2": ["C10"],
     "C11-seed1": ["C11"], "C11-seed2": ["C11"],
